@@ -44,6 +44,7 @@ struct Arena {
   bool counting = true;             // allocation points are numbered (and faults injected) only while this is set: the harness
                                     // switches it on around library calls so that its own bookkeeping allocations do not count
   bool internal = false;            // inside the arena's own bookkeeping
+  void (*hook)() = nullptr;         // called before every arena allocation / release (scheduling point of the thread explorer)
   // ledger errors
   long double_free = 0, foreign_free = 0, interior_free = 0;
   std::string first_error;
@@ -54,6 +55,7 @@ struct Arena {
     top = 0; blocks.clear(); alloc_count = 0; fail_at = -1; fault_fired = false; double_free = foreign_free = interior_free = 0; first_error.clear();
   }
   void* alloc(size_t n) {
+    if (hook) hook();
     long ord = alloc_count;
     if (counting) { alloc_count++; if (ord == fail_at) { fault_fired = true; throw std::bad_alloc(); } }
     init();
@@ -85,6 +87,7 @@ struct Arena {
   bool owns(const void* p) const { const char* c = (const char*)p; return base && c >= base && c < base + CAP; }
   void release(void* p) {
     if (!p) return;
+    if (hook) hook();
     Block* b = find(p);
     if (!b) { foreign_free++; if (first_error.empty()) first_error = "delete[] of an address that is not an arena block"; return; }
     if (b->data != (char*)p) { interior_free++; if (first_error.empty()) first_error = "delete[] of an interior pointer (wrong ptr_offset)"; return; }
